@@ -210,6 +210,20 @@ fn battery_steps(k: usize, n: usize, mut between: impl FnMut()) -> Vec<u8> {
     step!(w(&mut o, poly.unsigned_area()));
     step!(o.extend_from_slice(format!("{:?}", poly.relate(&other)).as_bytes()));
     step!(w(&mut o, geo::algorithm::line_measures::Distance::distance(&geo::algorithm::line_measures::Euclidean, &poly, &sq(20.0 + k as f64, 1.0, 2.0))));
+    step!({
+        // planar sweep over segments with duplicates and collinear overlaps (ties in the active set)
+        use geo::algorithm::sweep::Intersections;
+        let mut segs: Vec<geo_types::Line<f64>> = ring.windows(2).map(|w| geo_types::Line::new(w[0], w[1])).collect();
+        segs.push(segs[0]);
+        segs.push(geo_types::Line::new(Coord { x: 2.0, y: 0.0 }, Coord { x: 8.0, y: 0.0 }));
+        segs.push(geo_types::Line::new(Coord { x: 10.0, y: 0.0 }, Coord { x: 0.0, y: 0.0 }));
+        for (a, b, _) in Intersections::from_iter(segs.iter().copied()) {
+            w(&mut o, a.start.x);
+            w(&mut o, a.end.y);
+            w(&mut o, b.start.x);
+            w(&mut o, b.end.y);
+        }
+    });
     step!(wmp(&mut o, &poly.intersection(&other)));
     step!(wmp(&mut o, &geo::algorithm::bool_ops::unary_union([&poly, &other])));
     o
